@@ -31,7 +31,7 @@ def gen_history(rng, hid, length):
         if r < 0.22 or not fds:
             dirfd = rng.choice(dirfds)
             name = rng.choice(NAMES)
-            oflags = rng.choice([0, 0, 1, 1, 1 | 4, 1 | 8, 8, 2, 1 | 4 | 8])
+            oflags = rng.choice([0, 0, 1, 1, 1 | 4, 1 | 8, 8, 2, 1 | 4 | 8, 2 | 8, 2 | 1, 2 | 1 | 8, 2 | 1 | 4, 4, 4 | 8])
             acc = rng.choice([(True, False), (False, True), (True, True), (True, True), (False, False)])
             c = {"call": "open", "abi": abi(), "dirfd": dirfd, "path": name, "abs": rng.random() < 0.15, "oflags": oflags,
                  "rd": acc[0], "wr": acc[1], "app": rng.random() < 0.25}
